@@ -3,6 +3,7 @@
 // values.  The oracle is the exact datum-constrained weighted least-squares solution computed in
 // rational arithmetic from the network specification only.
 #include "netgen.h"
+#include <fstream>
 #include <iostream>
 #include <gnu_gama/local/language.h>
 
@@ -46,6 +47,7 @@ static QMat weight_matrix(const Spec& s, const std::vector<bool>& active) {
 static bool build(Built& b, const Spec& spec, const std::string& alg, const Q& bound_m, bool symbolic_values = true) {
   b.spec = spec;
   std::string text = gkf(spec);
+  if (const char* d = getenv("SX_DUMP_GKF")) { std::ofstream f(d); f << text; }
   if (!b.net.parse(text)) { sx::fail("generated input rejected by the parser", b.net.parse_error + " line " + std::to_string(b.net.parse_line)); return false; }
   b.obs = b.net.all_obs();
   size_t nspec = 0; for (auto& c : spec.cl) nspec += c.obs.size();
@@ -267,6 +269,20 @@ static Spec transform(const Spec& s, int variant, std::map<int,int>& obsmap) {
   } else if (variant == 4) {
     for (auto& c : t.cl) if (c.kind == Cluster::HD || c.kind == Cluster::VEC) for (auto& o : c.obs) { std::swap(o.from, o.to); o.val = -o.val; }
   }
+  else if (variant == 5) {
+    // the same survey written in the frame "en" (x to the east, y to the north) instead of "ne": x and y exchanged in the coordinates of
+    // every point and in the components of every vector / observed coordinate, the covariance matrices permuted accordingly
+    t.axes = "en";
+    for (auto& p : t.pts) { std::swap(p.x, p.y); std::swap(p.ax, p.ay); }
+    int start = 0;
+    for (auto& c : t.cl) { int n = (int)c.obs.size(); std::vector<int> perm(n); for (int i = 0; i < n; i++) perm[i] = i;        // new position i holds old observation perm[i]
+      for (int i = 0; i < n; i++) { const Obs& o = c.obs[i]; if (o.t != XDIFF && o.t != CX) continue;
+        for (int j = 0; j < n; j++) { const Obs& u = c.obs[j]; if (u.t == (o.t == XDIFF ? YDIFF : CY) && u.from == o.from && u.to == o.to) { perm[i] = j; perm[j] = i; } } }
+      Cluster old = c; QMat C0; if (old.has_cov) C0 = cov_of(old);
+      for (int i = 0; i < n; i++) { c.obs[i].val = old.obs[perm[i]].val; c.obs[i].stdev = old.obs[perm[i]].stdev; obsmap[start + perm[i]] = start + i; }
+      if (old.has_cov) { c.has_C = true; c.C = QMat(n, n); int band = 0; for (int i = 0; i < n; i++) for (int j = 0; j < n; j++) { c.C(i, j) = C0(perm[i], perm[j]); if (c.C(i, j) != 0) band = std::max(band, std::abs(i - j)); } c.band = band; }
+      start += n; }
+  }
   return t;
 }
 static void case_c07(const Spec& spec, int alg, int variant) {
@@ -294,16 +310,22 @@ static void case_c07(const Spec& spec, int alg, int variant) {
   sx::check_eq(ra.vpv, rb.vpv, tag + " sum of squares");
   for (auto& kv : ra.resid) { auto it = rb.resid.find(inv[kv.first]); if (it == rb.resid.end()) { sx::fail(tag + " observation missing", ""); continue; }
     Real v2 = it->second; if (variant == 4) { OType t = otype(a.obs[kv.first]); if (t == HDIFF || t == XDIFF || t == YDIFF || t == ZDIFF) v2 = -v2; }
+    if (variant == 5) { OType t = otype(b.obs[it->first]); if (t == YDIFF || t == CY) v2 = -v2; }      // network b works on the mirrored y internally
     sx::check_eq(kv.second, v2, tag + " residual " + std::to_string(kv.first + 1));
-    sx::check_eq(ra.stdev_obs.at(kv.first), rb.stdev_obs.at(it->first), tag + " stdev of adjusted observation " + std::to_string(kv.first + 1)); }
+    bool corr = a.obs[kv.first]->ptr_cluster()->covariance_matrix.bandWidth() > 0;
+    sx::check_eq(ra.stdev_obs.at(kv.first), rb.stdev_obs.at(it->first), tag + " stdev of adjusted observation " + std::to_string(kv.first + 1) + (corr ? " (correlated cluster)" : "")); }
   // coordinates
   std::map<std::string, std::string> ren; for (size_t i = 0; i < spec.pts.size(); i++) { std::string id2 = spec.pts[i].id; if (variant == 3) { int n = (int)spec.pts.size(); id2 = std::string("p") + (char)('a' + (n - 1 - (int)i)) + "\xc3\xa9"; } ren[spec.pts[i].id] = id2; }
-  for (auto& kv : ra.adj) { std::string id = kv.first.substr(0, kv.first.size() - 2); char t = kv.first.back(); auto it = rb.adj.find(ren[id] + "." + t);
+  // variant 5: a's X (north) is b's Y, held internally with the opposite sign; a's Y (east) is b's X
+  auto t2 = [&](char t) { return variant == 5 ? (t == 'X' ? 'Y' : t == 'Y' ? 'X' : t) : t; };
+  auto sg = [&](char t) { return (variant == 5 && t == 'X') ? sx::rat(-1) : sx::rat(1); };
+  for (auto& kv : ra.adj) { std::string id = kv.first.substr(0, kv.first.size() - 2); char t = kv.first.back(); auto it = rb.adj.find(ren[id] + "." + t2(t));
     if (it == rb.adj.end()) { sx::fail(tag + " unknown missing", kv.first); continue; }
-    Real shift = t == 'X' ? tx : t == 'Y' ? ty : tz; sx::check_eq(kv.second + shift, it->second, tag + " adjusted " + kv.first); }
+    Real shift = t == 'X' ? tx : t == 'Y' ? ty : tz; sx::check_eq(kv.second + shift, sg(t) * it->second, tag + " adjusted " + kv.first); }
   for (auto& kv : ra.qxx) { size_t bar = kv.first.find('|'); std::string u1 = kv.first.substr(0, bar), u2 = kv.first.substr(bar + 1);
-    auto nm = [&](const std::string& u) { return ren[u.substr(0, u.size() - 2)] + u.substr(u.size() - 2); };
-    auto it = rb.qxx.find(nm(u1) + "|" + nm(u2)); if (it != rb.qxx.end()) sx::check_eq(kv.second, it->second, tag + " q_xx " + kv.first); }
+    auto nm = [&](const std::string& u) { return ren[u.substr(0, u.size() - 2)] + "." + t2(u.back()); };
+    auto it = rb.qxx.find(nm(u1) + "|" + nm(u2)); if (it == rb.qxx.end()) it = rb.qxx.find(nm(u2) + "|" + nm(u1));
+    if (it != rb.qxx.end()) sx::check_eq(kv.second, sg(u1.back()) * sg(u2.back()) * it->second, tag + " q_xx " + kv.first); }
   sx::reached("net-c07");
 }
 
@@ -502,6 +524,68 @@ static void same_printed(Real got, Real want, const std::string& label, sx::f64 
   else sx::check_eq(got, want, label);
 }
 
+// C05 at network level: the equations LocalNetwork::project_equations(A,b,w) hands out for a network given in any axes orientation /
+// angle handedness equal those of the same network written in the reference frame (axes "ne", left-handed angles): gama's documented
+// convention is that only handedness matters and an inconsistent combination is handled by mirroring every y (coordinates of all points
+// with x,y, whatever their status, and Y / dY observations).  The coefficient formulas themselves are decided in harness "lin".
+static std::string c05_gkf(const std::string& axes, const std::string& angles, int ysign, int variant, Q azimuth = Q(851, 4)) {
+  auto q = [](Q v) { return qstr(v); };
+  struct P { const char* id; Q x, y, z; const char* status; };
+  std::vector<P> pts{{"A", 0, 0, 0, "fix=\"xyz\""}, {"B", Q(201, 2), Q(121, 4), 5, "adj=\"xyz\""}, {"C", -40, Q(141, 2), Q(-7, 2), variant == 1 ? "adj=\"XYz\"" : "adj=\"xyz\""},
+                     {"P", Q(81, 4), Q(-121, 2), 12, "adj=\"z\""}, {"Q", Q(-33, 2), Q(-35, 4), Q(9, 2), "fix=\"z\""}, {"D", 60, Q(-81, 4), 2, "fix=\"xy\" adj=\"z\""}};
+  std::ostringstream o;
+  o << "<?xml version=\"1.0\" ?>\n<gama-local xmlns=\"http://www.gnu.org/software/gama/gama-local\">\n<network axes-xy=\"" << axes << "\" angles=\"" << angles << "\">\n<description>c05</description>\n"
+    << "<parameters sigma-apr=\"10\" conf-pr=\"0.95\" tol-abs=\"10000000\" sigma-act=\"apriori\" />\n<points-observations>\n";
+  for (auto& p : pts) o << "<point id=\"" << p.id << "\" x=\"" << q(p.x) << "\" y=\"" << q(p.y * ysign) << "\" z=\"" << q(p.z) << "\" " << p.status << " />\n";
+  o << "<obs from=\"A\">\n<direction to=\"B\" val=\"18.2500\" stdev=\"10\" />\n<direction to=\"C\" val=\"140.5000\" stdev=\"10\" />\n<direction to=\"D\" val=\"371.7500\" stdev=\"10\" />\n"
+       "<distance to=\"B\" val=\"104.875\" stdev=\"5\" />\n<s-distance to=\"C\" val=\"81.125\" stdev=\"5\" />\n<z-angle to=\"P\" val=\"88.2500\" stdev=\"12\" />\n<z-angle to=\"Q\" val=\"86.7500\" stdev=\"12\" />\n"
+       "<z-angle to=\"B\" val=\"96.5000\" stdev=\"12\" />\n<angle bs=\"B\" fs=\"C\" val=\"122.5000\" stdev=\"15\" />\n</obs>\n";
+  o << "<obs from=\"B\">\n<direction to=\"A\" val=\"0\" stdev=\"10\" />\n<direction to=\"C\" val=\"77.1250\" stdev=\"10\" />\n<distance to=\"C\" val=\"151.5\" stdev=\"5\" />\n<distance to=\"D\" val=\"64.75\" stdev=\"5\" />\n</obs>\n";
+  o << "<obs from=\"P\">\n<z-angle to=\"B\" val=\"104.1250\" stdev=\"12\" />\n<z-angle to=\"C\" val=\"106.5000\" stdev=\"12\" />\n<z-angle to=\"D\" val=\"110.2500\" stdev=\"12\" />\n</obs>\n";
+  o << "<obs from=\"Q\">\n<z-angle to=\"C\" val=\"103.5000\" stdev=\"12\" />\n</obs>\n";
+  if (variant != 2) o << "<obs from=\"C\">\n<azimuth to=\"B\" val=\"" << q(azimuth) << "\" stdev=\"20\" />\n</obs>\n";
+  o << "<coordinates>\n<point id=\"B\" x=\"" << q(Q(804, 8)) << "\" y=\"" << q(Q(243, 8) * ysign) << "\" z=\"5.125\" />\n<cov-mat dim=\"3\" band=\"0\">\n4 4 9\n</cov-mat>\n</coordinates>\n";
+  o << "<vectors>\n<vec from=\"A\" to=\"C\" dx=\"-40.125\" dy=\"" << q(Q(565, 8) * ysign) << "\" dz=\"-3.375\" />\n<cov-mat dim=\"3\" band=\"0\">\n4 4 9\n</cov-mat>\n</vectors>\n";
+  o << "<height-differences>\n<dh from=\"A\" to=\"P\" val=\"12.125\" stdev=\"3\" />\n<dh from=\"D\" to=\"P\" val=\"9.875\" stdev=\"3\" />\n</height-differences>\n";
+  o << "</points-observations>\n</network>\n</gama-local>\n";
+  return o.str();
+}
+static std::string c05_name(Observation* o) {
+  if (dynamic_cast<Direction*>(o)) return "direction"; if (dynamic_cast<S_Distance*>(o)) return "s-distance"; if (dynamic_cast<Distance*>(o)) return "distance"; if (dynamic_cast<Z_Angle*>(o)) return "z-angle";
+  if (dynamic_cast<Azimuth*>(o)) return "azimuth"; if (dynamic_cast<Angle*>(o)) return "angle"; if (dynamic_cast<H_Diff*>(o)) return "dh"; if (dynamic_cast<Xdiff*>(o)) return "dx"; if (dynamic_cast<Ydiff*>(o)) return "dy";
+  if (dynamic_cast<Zdiff*>(o)) return "dz"; if (dynamic_cast<X*>(o)) return "x"; if (dynamic_cast<Y*>(o)) return "y"; if (dynamic_cast<Z*>(o)) return "z"; return "?";
+}
+static void case_c05_net(const std::string& axes, const std::string& angles, int variant, int alg) {
+  bool rh_axes = (axes == "en" || axes == "nw" || axes == "se" || axes == "ws"), rh_angles = (angles == "right-handed");
+  bool inconsistent = rh_axes != rh_angles;
+  Net n1, n2;
+  if (!n1.parse(c05_gkf(axes, angles, 1, variant))) { sx::fail("generated input rejected", n1.parse_error); return; }
+  // an azimuth is counted from north in the sense of the observed angles; the reference frame has its x axis on north, so the same
+  // sight has there the azimuth reduced by the azimuth of this frame's x axis (n 0, e 100, s 200, w 300 gon clockwise)
+  int xaz = axes[0] == 'n' ? 0 : axes[0] == 'e' ? 100 : axes[0] == 's' ? 200 : 300; if (rh_angles) xaz = (400 - xaz) % 400;
+  Q az2 = Q(851, 4) - xaz; if (az2 < 0) az2 += 400;
+  if (!n2.parse(c05_gkf("ne", "left-handed", inconsistent ? -1 : 1, variant, az2))) { sx::fail("generated reference input rejected", n2.parse_error); return; }
+  // symbolic part: the observed values of the length-like observations (the geometry is concrete: with symbolic coordinates the
+  // gross-error test |rhs| > tol-abs on square-root / arc-cosine terms is beyond the solver, see DESIGN.md "tried")
+  {
+    std::vector<Observation*> o1 = n1.all_obs(), o2 = n2.all_obs();
+    for (size_t i = 0; i < o1.size() && i < o2.size(); i++) { std::string t = c05_name(o1[i]); if (t == "y" || t == "dy" || t == "direction" || t == "angle" || t == "azimuth" || t == "z-angle") continue;
+      Real dv = sx::input("v" + std::to_string(i)); sx::assume_range(dv, mpq_class(-1, 100), mpq_class(1, 100)); Real v = o1[i]->value() + dv; o1[i]->set_value(v); o2[i]->set_value(v); } }
+  n1.prepare(ALGS[alg], true); n2.prepare(ALGS[alg], true);
+  GNU_gama::local::Mat A1, A2; GNU_gama::local::Vec b1, b2, w1, w2;
+  n1.IS->project_equations(A1, b1, w1); n2.IS->project_equations(A2, b2, w2);
+  std::string tag = "axes " + axes + ", " + angles + " angles";
+  sx::check_true(A1.rows() == A2.rows() && A1.cols() == A2.cols() && A1.rows() >= 20, tag + ": same number of equations and unknowns as in the reference frame", std::to_string(A1.rows()) + "x" + std::to_string(A1.cols()));
+  if (A1.rows() != A2.rows() || A1.cols() != A2.cols()) return;
+  for (int j = 1; j <= A1.cols(); j++) sx::check_true(n1.IS->unknown_type(j) == n2.IS->unknown_type(j) && n1.IS->unknown_pointid(j) == n2.IS->unknown_pointid(j), tag + ": unknown " + std::to_string(j) + " is the same quantity", "");
+  for (int i = 1; i <= A1.rows(); i++) {
+    std::string row = tag + ": " + c05_name(n1.IS->ptr_obs(i)) + " equation";
+    sx::check_eq(b1(i), b2(i), row + " right-hand side equals that of the reference frame"); sx::check_eq(w1(i), w2(i), row + " weight");
+    for (int j = 1; j <= A1.cols(); j++) sx::check_eq(A1(i, j), A2(i, j), row + " coefficient of " + std::string(1, n1.IS->unknown_type(j)));
+  }
+  sx::reached("net-c05");
+}
+
 // C04 at network level: every quantity a LocalNetwork can be asked for has one value whatever was asked before
 struct NOp { std::string name; int kind; int a = 0; };   // kind 0..: queries ; 20.. state changes
 static std::vector<Real> net_ask(Built& b, const NOp& o) {
@@ -561,7 +645,9 @@ static void case_c12(const Spec& spec0, int alg, int covband) {
   Spec spec = spec0; spec.sigma_act = "apriori";
   Built a; if (!build(a, spec, ALGS[alg], Q(1, 100000))) return;
   { Real crit = GNU_gama::Normal((sx::rat(1) - a.net.IS->conf_pr()) / sx::rat(2)); sx::assume_range(crit, mpq_class(19, 10), mpq_class(2)); }
-  make_oracle(a); if (!a.orc.resolves) return;
+  // frame "en": gama works on the mirrored y internally and writes the values back in the frame of the input
+  bool en = spec.axes == "en"; Real ys = sx::rat(en ? -1 : 1);
+  if (!en) { make_oracle(a); if (!a.orc.resolves) return; }
   LocalNetwork* IS = a.net.IS.get(); Oracle& o = a.orc;
   IS->set_adj_covband(covband);
   Res r = run_flow(a, true);
@@ -588,14 +674,15 @@ static void case_c12(const Spec& spec0, int alg, int covband) {
     const Pt* sp = spec.pt(p.id); bool con_xy = false, con_z = false; if (sp) for (char ch : sp->adj) { if (ch == 'X' || ch == 'Y') con_xy = true; if (ch == 'Z') con_z = true; }
     if (p.hxy) sx::check_true(p.cxy == con_xy, tag + " constrained flag xy of " + p.id, ""); if (p.hz) sx::check_true(p.cz == con_z, tag + " constrained flag z of " + p.id, ""); }
   sx::check_true(got.size() == r.adj.size(), tag + " same adjusted coordinates listed", std::to_string(got.size()));
-  for (auto& kv : r.adj) { auto it = got.find(kv.first); sx::check_true(it != got.end(), tag + " adjusted " + kv.first + " present", ""); if (it != got.end()) same_printed(it->second, kv.second, tag + " adjusted " + kv.first + " read back"); }
+  for (auto& kv : r.adj) { auto it = got.find(kv.first); sx::check_true(it != got.end(), tag + " adjusted " + kv.first + " present", ""); if (it != got.end()) same_printed(it->second, (kv.first.back() == 'Y' ? ys : sx::rat(1)) * kv.second, tag + " adjusted " + kv.first + " read back", (sx::f64)1e-8); }
   // fixed points
   for (auto& p : res.fixed_points) { const Pt* sp = spec.pt(p.id); sx::check_true(sp != nullptr, tag + " fixed point known", p.id); if (!sp) continue; if (p.hz) same_printed(p.z, sx::constant(sp->z), tag + " fixed z of " + p.id); if (p.hxy) { same_printed(p.x, sx::constant(sp->x), tag + " fixed x of " + p.id); same_printed(p.y, sx::constant(sp->y), tag + " fixed y of " + p.id); } }
   // observations
   sx::check_true((int)res.obslist.size() == r.nobs, tag + " observation list length", "");
   if ((int)res.obslist.size() == r.nobs) for (int i = 1; i <= r.nobs; i++) { auto& ob = res.obslist[i - 1]; Observation* real = IS->ptr_obs(i);
-    same_printed(ob.obs, real->value(), tag + " observed value " + std::to_string(i));
-    same_printed(ob.adj, real->value() + IS->residuals()(i) / sx::rat(1000), tag + " adjusted observation " + std::to_string(i));
+    Real so = (otype(real) == YDIFF || otype(real) == CY) ? ys : sx::rat(1);
+    same_printed(ob.obs, so * real->value(), tag + " observed value " + std::to_string(i), (sx::f64)1e-8);        // written with 16 decimals
+    same_printed(ob.adj, so * (real->value() + IS->residuals()(i) / sx::rat(1000)), tag + " adjusted observation " + std::to_string(i), (sx::f64)1e-8);
     same_printed(ob.stdev, IS->stdev_obs(i), tag + " stdev of adjusted observation " + std::to_string(i));
     same_printed(ob.qrr, IS->wcoef_res(i), tag + " qrr " + std::to_string(i), (sx::f64)6e-4); }   // written with 3 decimals
   // covariance band = m0^2 Q of the oracle, exactly the band asked for
@@ -606,6 +693,7 @@ static void case_c12(const Spec& spec0, int alg, int covband) {
     for (int i = 1; i <= dim; i++) for (int j = i; j <= std::min(dim, i + band); j++) {
       int ui = res.original_index[i], uj = res.original_index[j];     // 1-based list
       int ci = o.col(IS->unknown_pointid(ui).str(), IS->unknown_type(ui)), cj = o.col(IS->unknown_pointid(uj).str(), IS->unknown_type(uj));
+      if (en) { same_printed(C(i, j), m0 * m0 * IS->qxx(ui, uj), tag + " cov-mat element " + std::to_string(i) + "," + std::to_string(j) + " = m0^2 q_xx"); continue; }
       if (ci >= 0 && cj >= 0) same_printed(C(i, j), m0 * m0 * sx::constant(o.Qx(ci, cj)), tag + " cov-mat element " + std::to_string(i) + "," + std::to_string(j) + " = m0^2 q_xx"); }
   }
   sx::reached("net-c12");
@@ -625,6 +713,7 @@ static void case_c13(const Spec& spec, int alg, int rounds) {
     keep.emplace_back(new Built); Built& b = *keep.back();
     if (!b.net.parse(xml_prev)) { sx::fail(t + " exported file is rejected by the parser", b.net.parse_error + " line " + std::to_string(b.net.parse_line)); return; }
     b.obs = b.net.all_obs(); b.active.assign(b.obs.size(), true);
+    b.net.prepare(ALGS[alg], false);         // both networks are compared in gama's internal frame (y mirrored when the input frame is inconsistent)
     sx::check_true(b.obs.size() == obs_prev.size(), t + " same number of observations", std::to_string(b.obs.size())); if (b.obs.size() != obs_prev.size()) return;
     for (size_t k = 0; k < b.obs.size(); k++) {
       sx::check_true(otype(b.obs[k]) == otype(obs_prev[k]) && b.obs[k]->from().str() == obs_prev[k]->from().str() && b.obs[k]->to().str() == obs_prev[k]->to().str(), t + " observation " + std::to_string(k + 1) + " has the same type and end points", "");
@@ -642,7 +731,6 @@ static void case_c13(const Spec& spec, int alg, int rounds) {
       if (p.test_xy()) { sx::check_true(q.test_xy(), t + " xy present", ""); if (q.test_xy()) { sx::check_eq(p.x(), q.x(), t + " x of " + it->first.str()); sx::check_eq(p.y(), q.y(), t + " y of " + it->first.str()); } }
       if (p.test_z()) { sx::check_true(q.test_z(), t + " z present", ""); if (q.test_z()) sx::check_eq(p.z(), q.z(), t + " z of " + it->first.str()); } }
     sx::check_eq(A->apriori_m_0(), B->apriori_m_0(), t + " sigma-apr"); sx::check_eq(A->tol_abs(), B->tol_abs(), t + " tol-abs"); sx::check_true(A->m_0_apriori() == B->m_0_apriori(), t + " sigma-act", "");
-    b.net.prepare(ALGS[alg], false);
     Res rb = run_flow(b, true);
     same_results(rb, rprev, t + " re-adjustment", true, true);
     sx::check_true(B->linearization_iterations() == 0, t + " no further linearisation iterations", "");
@@ -714,8 +802,9 @@ static void gen_cases(const sx::Options& opt, std::vector<sx::Case>& cases) {
   if (on("C06")) for (auto& s : fam) for (int alg = 0; alg < 3; alg++) for (int mode = 0; mode < 3; mode++) {
       if (!th && alg != mode % 3 && mode != 1) continue;
       auto sp = std::make_shared<Spec>(s); add("net-c06/" + s.name + "/" + ALGS[alg] + "/mode" + std::to_string(mode), "consistent observations reproduce the network", [sp, alg, mode] { case_c06(*sp, alg, mode); }); }
-  if (on("C07")) for (auto& s : fam) for (int variant = 1; variant <= 4; variant++) for (int alg = 0; alg < 3; alg++) {
+  if (on("C07")) for (auto& s : fam) for (int variant = 1; variant <= 5; variant++) for (int alg = 0; alg < 3; alg++) {
       if (!th && alg != variant % 3) continue;
+      if (variant == 5) { bool has_xy = false; for (auto& p : s.pts) if (p.has_xy) has_xy = true; if (!has_xy) continue; }
       auto sp = std::make_shared<Spec>(s); add("net-c07/" + s.name + "/" + ALGS[alg] + "/variant" + std::to_string(variant), "equivalent descriptions", [sp, alg, variant] { case_c07(*sp, alg, variant); }); }
   if (on("C08")) {
     qla::Rng rng(808 + opt.seed);
@@ -743,12 +832,18 @@ static void gen_cases(const sx::Options& opt, std::vector<sx::Case>& cases) {
     }
     for (int kind = 0; kind < 4; kind++) add("net-c10/reject/kind" + std::to_string(kind), "malformed covariance matrices", [kind] { case_c10_reject(kind); });
   }
+  if (on("C05")) { const char* AX[] = {"ne", "sw", "es", "wn", "en", "nw", "se", "ws"}; const char* AN[] = {"left-handed", "right-handed"}; int k = 0;
+    for (auto ax : AX) for (auto an : AN) for (int variant = 0; variant < (th ? 3 : 1); variant++) { std::string a = ax, g = an; int alg = (k++) % 3;
+      add("net-c05/" + a + "/" + g + "/v" + std::to_string(variant) + "/" + ALGS[alg], "frames", [a, g, variant, alg] { case_c05_net(a, g, variant, alg); }); } }
   if (on("C04")) { int k = 0; for (auto& s : fam) { if (s.name != "lev5-fixed1/cov2" && s.name != "lev5-free-c2/cov1" && s.name != "vec4-fixed1/cov1") continue; int alg0 = (k++) % 3;
       for (int first = 0; first < 19; first++) { auto sp = std::make_shared<Spec>(s); int ml = th ? 3 : 2;
         add("net-c04/" + s.name + "/" + ALGS[alg0] + "/first" + std::to_string(first), "LocalNetwork histories", [sp, alg0, first, ml] { case_c04_net(*sp, alg0, first, ml); }); } } }
-  if (on("C12")) { int si = -1; static const int bands[] = {-1, 0, 1, 3, 2}; for (auto& s : fam) { si++; for (int bi = 0; bi < 5; bi++) { if (!th && bi != si % 5 && bi != (si + 2) % 5) continue; int cb = bands[bi]; int alg = (si + bi) % 3; auto sp = std::make_shared<Spec>(s);
+  std::vector<Spec> fam_en;      // the families with horizontal coordinates, written in the frame "en" (inconsistent with the default angle sense)
+  for (auto& s : fam) { bool has_xy = false; for (auto& p : s.pts) if (p.has_xy) has_xy = true; if (!has_xy) continue; std::map<int,int> om; Spec t = transform(s, 5, om); t.name = s.name + "@en"; fam_en.push_back(t); }
+  std::vector<Spec> fam12 = fam; for (auto& s : fam_en) fam12.push_back(s);
+  if (on("C12")) { int si = -1; static const int bands[] = {-1, 0, 1, 3, 2}; for (auto& s : fam12) { si++; for (int bi = 0; bi < 5; bi++) { if (!th && bi != si % 5 && bi != (si + 2) % 5) continue; int cb = bands[bi]; int alg = (si + bi) % 3; auto sp = std::make_shared<Spec>(s);
       add("net-c12/" + s.name + "/" + ALGS[alg] + "/band" + std::to_string(cb), "XML result read back", [sp, alg, cb] { case_c12(*sp, alg, cb); }); } } }
-  if (on("C13")) { int k = 0; for (auto& s : fam) { int alg = (k++) % 3; auto sp = std::make_shared<Spec>(s); int rounds = th ? 3 : 2;
+  if (on("C13")) { int k = 0; for (auto& s : fam12) { int alg = (k++) % 3; auto sp = std::make_shared<Spec>(s); int rounds = th ? 3 : 2;
       add("net-c13/" + s.name + "/" + ALGS[alg], "export is a faithful fixed point", [sp, alg, rounds] { case_c13(*sp, alg, rounds); }); } }
   if (on("C14")) for (auto& s : fam) { if (s.name.find("fixed") == std::string::npos) continue; size_t nobs = 0; for (auto& c : s.cl) nobs += c.obs.size();
       for (int alg = 0; alg < 3; alg++) for (size_t t = 0; t < nobs; t += (th ? 1 : 3)) { auto sp = std::make_shared<Spec>(s); int tt = (int)t;
